@@ -350,6 +350,48 @@ func genC08(r *plan.Rng) *plan.Plan {
 		}
 		p.Tasks = append(p.Tasks, ops)
 	}
+	// cancellation of one clone's run must not matter to its siblings: one task
+	// gets a cancellable context on its first RunContext (ops after it are not
+	// compared for that task: the run may stop anywhere)
+	if r.Chance(1, 4) {
+		rc := r.Fork(7)
+		ti := rc.Intn(len(p.Tasks))
+		runIdx := 0
+		for oi := range p.Tasks[ti] {
+			op := &p.Tasks[ti][oi]
+			if op.Kind == plan.OpRun {
+				runIdx++
+			}
+			if op.Kind != plan.OpRunCtx {
+				continue
+			}
+			spec := plan.CtxSpec{Kind: "cancel", Step: rc.Range(0, 400)}
+			switch rc.Intn(5) {
+			case 0:
+				spec = plan.CtxSpec{Kind: "cancel", Site: []string{"VMRunExit", "VMGoEnd", "RunCtxSpawned", "VMGoStart"}[rc.Intn(4)]}
+			case 1:
+				spec = plan.CtxSpec{Kind: "preCancelled"}
+			}
+			p.Ctxs = append(p.Ctxs, spec)
+			op.Ctx = len(p.Ctxs)
+			if rc.Chance(1, 2) {
+				p.Faults = append(p.Faults, plan.Fault{Kind: plan.FaultStallCaller, Task: ti, Run: runIdx, Site: []string{"RunCtxCancelSeen", "RunCtxAborted"}[rc.Intn(2)], Steps: []int{-1, 0, 5, 60}[rc.Intn(4)]})
+			}
+			param(p, "cancelTask", int64(ti))
+			param(p, "cancelOp", int64(oi))
+			// the same clone is run again afterwards, and so is a sibling
+			for _, in := range c08Inputs(rc, 900+ti) {
+				v := in.Val
+				p.Tasks[ti] = append(p.Tasks[ti], plan.Op{Kind: plan.OpSet, Obj: op.Obj, Name: in.Name, Val: &v})
+			}
+			p.Tasks[ti] = append(p.Tasks[ti], plan.Op{Kind: plan.OpRun, Obj: op.Obj}, plan.Op{Kind: plan.OpGetAll, Obj: op.Obj})
+			other := (ti + 1) % len(p.Tasks)
+			oobj := p.Tasks[other][0].Obj
+			p.Tasks[other] = append(p.Tasks[other], plan.Op{Kind: plan.OpRun, Obj: oobj}, plan.Op{Kind: plan.OpGetAll, Obj: oobj})
+			note(p, "cancel", spec.Kind)
+			break
+		}
+	}
 	p.Tape = plan.GenTape(r.Fork(3), 80, []int{1, 3, 10, 40, 200}[r.Intn(5)])
 	return p
 }
